@@ -89,6 +89,14 @@ class VLoop(asyncio.SelectorEventLoop):
         super().__init__(selector=_FakeSelector(self))
         self.endpoints = []
         self.net = None
+        self.iterations = 0
+        self.on_iteration = None      # callback(iteration number) run before each pass of the event loop
+
+    def _run_once(self):
+        self.iterations += 1
+        if self.on_iteration is not None:
+            self.on_iteration(self.iterations)
+        super()._run_once()
 
     def time(self):
         return self._vtime
